@@ -66,7 +66,7 @@ impl Prop for C15Prop {
         }
     }
     fn rule(&self) -> &'static str {
-        "one arbitrary stream (1-6 segments: frames intact / with link faults, noise, junk, cut-off and Byzantine frames) tapped by six receivers - push decoder + finalize, decode, decode_streaming, SmlReader over slice / iterator / io::Read - each with Vec and with ArrayBuf<N>, N >= stream length -, plus decode_streaming over a filtered iterator and a push decoder that already served (and finalized) another stream; result logs must agree modulo the documented end-of-input representation. Non-trivial = the log has at least two entries or a non-zero leftover; distinct = scenario fingerprint"
+        "one arbitrary stream (1-6 segments: frames intact / with link faults, noise, junk, cut-off and Byzantine frames) tapped by six receivers - push decoder + finalize, decode, decode_streaming, SmlReader over slice / iterator / io::Read - each with Vec and with ArrayBuf<N>, N >= stream length -, plus decode_streaming over a filtered iterator, a push decoder that already served (and finalized) another stream and SmlReader over an io::Read that is interrupted (ErrorKind::Interrupted) between bytes; result logs must agree modulo the documented end-of-input representation. Non-trivial = the log has at least two entries or a non-zero leftover; distinct = scenario fingerprint"
     }
     fn assumptions(&self) -> Vec<&'static str> {
         vec!["metamorphic: a defect common to all front-ends (they share one decoder) is invisible here; C02 / C08 / C17 carry the independent oracles"]
@@ -190,6 +190,34 @@ impl Prop for C15Prop {
                 }
             }
             st.bump("probe", "reused-decoder-receiver");
+        }
+        // a ninth receiver: SmlReader over an io::Read whose arrival schedule is full of interruptions
+        // (`ErrorKind::Interrupted` between bytes, in front of the first and behind the last one): the
+        // bytes are the same, and an interruption is not a result
+        if violation.is_none() {
+            let faults: Vec<(usize, fe::SrcFault)> = (0..=stream.len()).filter(|i| (i * 7 + stream.len()) % 5 < 2).map(|i| (i, fe::SrcFault::Interrupted)).collect();
+            for buf in [BufKind::Vec, BufKind::Arr(cap)] {
+                let src = fe::SrcState::new(stream, &faults);
+                let plan = fe::AppPlan { calls: &[fe::Call::NEXT_BYTES], extra_polls: l.extra_polls, alloc_fail: 0 };
+                let obs = fe::run_reader(Fe::RdIo, buf, &src, &plan, true).0;
+                let label = format!("SmlReader over an interrupted io::Read / {:?}", buf);
+                match (normalise(Fe::RdIo, &obs), &reference) {
+                    (Ok(n), Some((rl, rn))) if *rn != n => {
+                        violation = Some(Violation::oracle(
+                            "C15.replica-disagreement",
+                            format!("{} reported {} leftover {:?} but {} reported {} leftover {:?}", rl, show_items(&rn.results), rn.leftover, label, show_items(&n.results), n.leftover),
+                        ));
+                    }
+                    (Err(e), _) => violation = Some(Violation::oracle("C15.malformed-log", format!("{}: {}", label, e))),
+                    _ => {}
+                }
+                if violation.is_some() {
+                    break;
+                }
+            }
+            if !faults.is_empty() {
+                st.bump("fault.source", "Interrupted");
+            }
         }
         let (nontrivial, steps) = match &reference {
             Some((_, n)) => {
